@@ -470,6 +470,121 @@ def gen_malformed(rng, mode):
             "search 0x100 0x80 0 0 0061 " + mode, "search 0x100 0x100 0 0 0061 " + mode, "search 0x8ff -5 0 0 0061 " + mode]
     return [rng.choice(pool) for _ in range(rng.randint(3, 12))]
 
+# ----------------------------------------------------------------------------------------------------------
+# patterns with borders / self-overlap (KMP-style worst cases).  A matcher that, after a failed partial match, does not
+# retry from every position inside the text the attempt consumed loses an occurrence that begins there: "aab" in
+# "aaab", "0080" in "00080", "ababc" in "abababc".  Literal cases go through the model too (its literal matcher
+# `exactLit` is proved to be the leftmost substring search: Props/C17.lean `matcher_exact`), regular expression cases
+# through the real code and the oracle.  The oracle is the independent matcher (Python re) as for every other case.
+# ----------------------------------------------------------------------------------------------------------
+BORDER_ALPHAS = ["ab", "abc", "01", "08", "xy", "co", "aB", "nN"]
+NEUTRAL = ["..", "--", "zz", "qq", "mm", "::", "=="]          # filler without letters of the pattern alphabets
+
+def border_pattern(rng):
+    """-> (pattern, unit, r): pattern = unit^r + tail, the tail breaks the period"""
+    al = rng.choice(BORDER_ALPHAS)
+    u = "".join(rng.choice(al) for _ in range(rng.choice([1, 1, 2, 2, 3])))
+    r = rng.randint(2, 4) if len(u) == 1 else rng.randint(1, 3)
+    if len(u) * r < 2: r = 2
+    others = [ch for ch in al + "c8z" if ch != u[0]]
+    tail = rng.choice(others) + "".join(rng.choice(al) for _ in range(rng.choice([0, 0, 1, 2])))
+    return u * r + tail, u, r
+
+def border_text(rng, pat, u, r):
+    """the occurrence preceded by 1..k further (partial) repetitions of the period"""
+    j = rng.randint(1, max(1, r - 1)) if rng.random() < 0.7 else rng.randint(1, r + 2)
+    part = u[rng.randint(0, len(u)):] if rng.random() < 0.3 else ""
+    return part + u * j + pat
+
+def random_overlap(rng):
+    """random pattern and text over a two / three letter alphabet; the text holds the pattern exactly once or never"""
+    al = rng.choice(["ab", "abc", "01", "xy"])
+    for _ in range(50):
+        pat = "".join(rng.choice(al) for _ in range(rng.randint(3, 6)))
+        txt = "".join(rng.choice(al) for _ in range(rng.randint(8, 30)))
+        n = len(re.findall("(?=%s)" % re.escape(pat), txt))
+        if n == 1 or (n == 0 and rng.random() < 0.15): return pat, txt
+    return pat, txt
+
+def place(rng, occ, split_ok=True):
+    """rows holding the text `occ`: in the middle of a row, at its start / end (next to the row separator of the
+    searched text), or with the leading repetitions at the end of one row and the rest on the next"""
+    y = rng.randint(1, 22)
+    occ = occ[:36]
+    how = rng.random()
+    if not split_ok: how *= 0.75
+    fill = rng.choice(NEUTRAL)
+    if how < 0.45:
+        return [(y, (fill + " " + occ + " " + fill)[:40])]
+    if how < 0.60:
+        return [(y, occ)]
+    if how < 0.75:
+        return [(y, " " * (40 - len(occ)) + occ)]
+    k = rng.randint(1, max(1, len(occ) - 1))
+    return [(y, " " * (40 - k) + occ[:k]), (y + 1, occ[k:])]
+
+def recase(rng, t):
+    return "".join(ch.upper() if rng.random() < 0.5 else ch.lower() for ch in t)
+
+def gen_border_case(rng, regexp=False):
+    """Digit runs stay below 8 characters: the page formatter's link detection (teletext.c keyword(), outside this
+    property) overflows an int on longer ones - reported separately.  An occurrence of a regular expression with `.`
+    is not split over two rows: ure's `.` also matches the row separator, Python's does not (left open, see NOTES)."""
+    for _ in range(20):
+        c = gen_border_case1(rng, regexp)
+        if not any(re.search(r"\d{8,}", l.rows_text()) for l in c if isinstance(l, Put)): break
+    return c
+
+def gen_border_case1(rng, regexp):
+    casefold = rng.random() < 0.3
+    if regexp:
+        tmpl = rng.choice(BORDER_REGEXES)
+        pat, txts = tmpl[0], tmpl[1:]
+        occ = rng.choice(txts)
+        decoys = [t[:-1] for t in txts]
+    elif rng.random() < 0.65:
+        pat, u, r = border_pattern(rng)
+        occ = border_text(rng, pat, u, r)
+        decoys = [u * (r + 1), pat[:-1] + u, (u * r)[:-1] + pat[:-1]]
+    else:
+        pat, occ = random_overlap(rng)
+        decoys = [occ[:len(pat) - 1], pat[:-1]]
+    if regexp: search_pat = pat
+    elif casefold: search_pat = recase(rng, pat)
+    else: search_pat = pat
+    pgnos = pick_pgnos(rng, rng.randint(1, 4), False)
+    special = rng.randrange(len(pgnos))
+    c, puts = [], []
+    for i, p in enumerate(pgnos):
+        if i == special:
+            rows = place(rng, recase(rng, occ) if casefold and not regexp else occ, split_ok=not (regexp and "." in pat))
+        else:
+            r = rng.random()
+            if r < 0.35: rows = place(rng, rng.choice(decoys))                    # looks like it, holds no occurrence
+            elif r < 0.55: rows = place(rng, pat if not regexp else occ, split_ok=not (regexp and "." in pat))   # a plain occurrence
+            else: rows = [(rng.randint(1, 23), filler(rng, rng.randint(0, 3))[:40])]
+        rows = sorted(dict(rows).items())
+        q = Put(p, rng.choice([0, 0, 0, 1, 2]), rows)
+        puts.append(q); c.append(q)
+    c.append("dump")
+    p, s = pick_start(rng, pgnos, puts)
+    if not (0x100 <= p <= 0x8FF): p = 0x100
+    c.append("search 0x%x %s %d %d %s %s" % (p, ("0x%x" % s) if s >= 0 else str(s), casefold, 1 if regexp else 0,
+                                             S.pat_hex(search_pat), "regex" if regexp else "exact"))
+    d = rng.choice([1, 1, -1])
+    for _ in range(rng.randint(3, 8)):
+        if rng.random() < 0.08: d = -d
+        c.append("next %d" % d)
+    c += ["dump", "endsearch"]
+    return c
+
+# regular expression, then texts that contain a match which begins inside a failed partial match
+# (fixed-length alternatives / classes, or `+` where greedy = longest: Python re and a DFA agree on the spans)
+BORDER_REGEXES = [("aab", "aaab", "aaaab"), ("0080", "00080"), ("ababc", "abababc", "bababc"), ("a(a|b)c", "aabc", "abac", "aaac"),
+                  ("[ab][ab]c", "abac", "aabc"), ("a.ac", "aabac", "abaac"), ("(ab|ba)abc", "ababc abbaabc", "baababc"),
+                  ("aa+b", "aacaab", "acaaab"), ("ab(ab)+c", "abcababc", "ababxababc"), ("[01]0[01]8", "01008", "000018"),
+                  ("co(co)+a", "cocxcococa"), ("x[xy]y", "xxxy", "xyxyy")]
+
 # regular expressions: implementation + oracle only (the model takes the matcher as a parameter)
 REGEXES = [("a.b", "a+b axb"), ("[0-9]+", "12:30 100%"), ("Sp(ort|iel)", "Sport Spiel"), ("b[ae]r", "bar ber"), ("fo*", "f foo"),
            ("x|zz", "zz"), ("[A-Z][a-z]+", "Wetter"), ("1\\.5", "1.5"), ("t.l.t", "teletext"), ("(ab)+", "abab")]
@@ -549,6 +664,8 @@ class C17(verif.Spec):
                 if r < acc: break
             raw.append(gen_malformed(rng, mode) if k == "malformed" else gen_search_case(rng, mode, k))
             kinds.append(k)
+        for _ in range(80 if tier == "quick" else 600):       # literal patterns with borders / self-overlap
+            raw.append(gen_border_case(rng)); kinds.append("border")
         cases = S.resolve(raw, self.run_h)
         for c, k in zip(cases, kinds): self.remember(c, k)
         return cases
@@ -580,6 +697,7 @@ class C17(verif.Spec):
         raw = []
         if not ctx["replay"]:
             raw = [gen_regex_case(rng) for _ in range(80 if ctx["tier"] == "quick" else 600)]
+            raw += [gen_border_case(rng, regexp=True) for _ in range(40 if ctx["tier"] == "quick" else 300)]
             # replays written for the decoder harness (dec format: `search <pgno-hex> <subno-hex> <cf> <re> <pattern>`),
             # e.g. the regular expressions that crashed / leaked in ure_compile: run them here against a small cache
             for f, lines in verif.corpus_cases(self.prop):
